@@ -13,6 +13,10 @@ use tokio::fs::{
     File as TokioFile,
     OpenOptions
 };
+// Under the verification guard the file type of this module is the tapped wrapper
+// (an explicit import takes precedence over the prelude glob import of `std::fs::File`).
+#[cfg(pearl_verif)]
+use crate::verif::TappedFile as StdFile;
 
 /// IO driver for file operations
 #[derive(Debug, Clone)]
@@ -31,10 +35,16 @@ impl IoDriver {
     }
 
     pub(crate) async fn open(&self, path: impl AsRef<Path>) -> IOResult<File> {
+        #[cfg(pearl_verif)]
+        return File::from_file_verif(path.as_ref(), false).await;
+        #[cfg(not(pearl_verif))]
         File::from_file(path, |f| f.create(false).append(true).read(true)).await
     }
 
     pub(crate) async fn create(&self, path: impl AsRef<Path>) -> IOResult<File> {
+        #[cfg(pearl_verif)]
+        return File::from_file_verif(path.as_ref(), true).await;
+        #[cfg(not(pearl_verif))]
         File::from_file(path, |f| f.create(true).write(true).read(true)).await
     }
 }
@@ -174,6 +184,10 @@ impl File {
     }
 
     pub(crate) fn created_at(&self) -> IOResult<SystemTime> {
+        #[cfg(pearl_verif)]
+        if let Some(created) = self.inner.std_file.created_at_verif() {
+            return Ok(created);
+        }
         let metadata = self.inner.std_file.metadata()?;
         Ok(metadata.created().unwrap_or(SystemTime::now()))
     }
@@ -218,6 +232,10 @@ impl File {
         F: FnOnce() -> R + Send + 'static,
         R: Send + 'static,
     {
+        #[cfg(pearl_verif)]
+        if crate::verif::is_active() {
+            return crate::verif::blocking_job(f).await;
+        }
         tokio::task::spawn_blocking(move || f())
             .await
             .expect("spawned blocking task failed")
@@ -228,15 +246,46 @@ impl File {
         F: FnOnce() -> R + Send + 'static,
         R: Send + 'static,
     {
+        #[cfg(pearl_verif)]
+        if crate::verif::is_active() {
+            return f();
+        }
         tokio::task::block_in_place(move || f())
     }
 
     fn can_run_inplace(len: u64) -> bool {
         use tokio::runtime::{Handle, RuntimeFlavor};
+        #[cfg(pearl_verif)]
+        if let Some(inplace_small) = crate::verif::inplace_small() {
+            return len <= MAX_SYNC_OPERATION_SIZE as u64 && inplace_small;
+        }
         len <= MAX_SYNC_OPERATION_SIZE as u64
             && Handle::current().runtime_flavor() != RuntimeFlavor::CurrentThread
     }
 
+    /// Verification twin of `from_file` + `from_tokio_file`: the file is opened with `std::fs`
+    /// inside a (possibly simulated) blocking job, with the same flags.
+    #[cfg(pearl_verif)]
+    async fn from_file_verif(path: &Path, create: bool) -> IOResult<Self> {
+        let path_buf = path.to_owned();
+        let std_file =
+            Self::background_sync_call(move || StdFile::open_verif(&path_buf, create)).await?;
+        if Self::advisory_write_lock_file(std_file.as_raw_fd()) == LockAcquisitionResult::AlreadyLocked
+        {
+            error!("File {:?} is locked", path);
+            panic!("File {:?} is locked", path);
+        }
+        let size = std_file.metadata()?.len();
+        Ok(Self {
+            inner: Arc::new(FileInner {
+                std_file,
+                size: AtomicU64::new(size),
+                synced_size: AtomicU64::new(size),
+            }),
+        })
+    }
+
+    #[cfg(not(pearl_verif))]
     async fn from_file(
         path: impl AsRef<Path>,
         setup: impl Fn(&mut OpenOptions) -> &mut OpenOptions,
@@ -252,6 +301,7 @@ impl File {
         Self::from_tokio_file(file).await
     }
 
+    #[cfg(not(pearl_verif))]
     async fn from_tokio_file(file: TokioFile) -> IOResult<Self> {
         let size = file.metadata().await?.len();
         let synced_size = AtomicU64::new(size);
